@@ -122,6 +122,9 @@ func specPaths(pc *PropConfig) []string {
 	return out
 }
 
+// extraEngines: the property's "extra" entries from props.json (e.g. "forkjoin:<function>"), set by the commands.
+var extraEngines []string
+
 // generateUnits builds all verification units for a property.
 func generateUnits(P *Program, id string, only string) ([]*unit, []string) {
 	var units []*unit
@@ -170,6 +173,15 @@ func generateUnits(P *Program, id string, only string) ([]*unit, []string) {
 			continue
 		}
 		units = append(units, &unit{name: "lemma:" + l.Name, res: GenLemma(P, l)})
+	}
+	for _, ex := range extraEngines {
+		if strings.HasPrefix(ex, "forkjoin:") {
+			full := strings.TrimPrefix(ex, "forkjoin:")
+			if only != "" && !strings.Contains(full, only) {
+				continue
+			}
+			units = append(units, &unit{name: ex, res: GenForkJoin(P, full)})
+		}
 	}
 	sort.Slice(units, func(i, j int) bool { return units[i].name < units[j].name })
 	return units, problems
@@ -233,6 +245,7 @@ func cmdDump(args []string) {
 	if err != nil {
 		fatal(2, "%v", err)
 	}
+	extraEngines = pc.Extra
 	units, problems := generateUnits(P, *prop, *only)
 	for _, p := range problems {
 		fmt.Println("PROBLEM:", p)
@@ -351,6 +364,7 @@ func cmdCheck(args []string) {
 		loadHints(filepath.Join(verifRoot, "baseline", id+".hints"))
 	}
 	tLoad := time.Since(start).Seconds()
+	extraEngines = pc.Extra
 	units, problems := generateUnits(P, id, "")
 	tGen := time.Since(start).Seconds() - tLoad
 	extraRuns, extraNotes := runExtraEngines(P, id, pc)
@@ -647,7 +661,7 @@ func writeReplay(P *Program, path, id string, r *oblRun) bool {
 	}
 	fmt.Fprintf(&b, "solver verdict: %s (%s, %.2fs); per solver: %v\n", r.res.Status, r.res.Solver, r.res.Seconds, r.res.Per)
 	reproduced := false
-	if r.res.Status == "sat" && len(r.res.Model) > 0 {
+	if r.res.Status == "sat" && (len(r.res.Model) > 0 || r.o.Kind == "forkjoin") {
 		fmt.Fprintf(&b, "counterexample (inputs):\n")
 		var ks []string
 		for k := range r.res.Model {
